@@ -283,6 +283,62 @@ func rtAdmitCell(t *testing.T, rec *Rec, g *Gates, scn string, cell map[string]a
 	w.quietEnd()
 }
 
+// rtWtCell: one WebTransport admission cell (hook x first packet) on a fresh server with an open polling session and a closed one.
+func rtWtCell(t *testing.T, rec *Rec, g *Gates, scn string, cell map[string]any) {
+	hook, first := cell["hook"].(string), cell["first"].(string)
+	quiet := &Rec{start: rec.start}
+	so := &config.ServerOptions{}
+	so.SetTransports(types.NewSet("polling", "websocket", "webtransport"))
+	armed := false
+	so.SetAllowRequest(func(*types.HttpContext) error {
+		if armed && hook == "deny" {
+			return errors.New("hook says no")
+		}
+		return nil
+	})
+	w := NewWorld(t, quiet, g, WorldOpts{Opts: so})
+	connErr, created := 0, 0
+	w.Srv.On("connection_error", func(...any) { connErr++ })
+	w.Srv.On("connection", func(...any) { created++ })
+	sp, _ := w.Handshake(4, false, false, ReqOpt{})
+	sc, _ := w.Handshake(4, false, false, ReqOpt{})
+	synctest.Wait()
+	if s := w.Sock(sc.Sid); s != nil {
+		s.Close(true)
+	}
+	synctest.Wait()
+	armed = true
+	connErr, created = 0, 0
+	s := &Sess{Proto: 4}
+	switch first {
+	case "known":
+		s.Sid = sp.Sid
+	case "unknown":
+		s.Sid = "nosuchsessionid"
+	case "closed":
+		s.Sid = sc.Sid
+	}
+	c := w.DialWT(s, nil)
+	synctest.Wait()
+	obs := map[string]any{"via": "open", "status": 0, "code": -1, "message": "", "connErr": 0, "created": false, "disturbed": false, "upgrading": false}
+	if code := c.wtReq.RW.Code(); code >= 400 {
+		c.wtReq.RW.mu.Lock()
+		body := append([]byte(nil), c.wtReq.RW.body...)
+		c.wtReq.RW.mu.Unlock()
+		cd, m := jsonCodeMsg(body)
+		obs["via"], obs["status"], obs["code"], obs["message"] = "http", code, cd, m
+	} else if c.closed {
+		obs["via"] = "closed"
+	}
+	obs["connErr"], obs["created"] = connErr, created > 0
+	so2 := w.Sock(sp.Sid)
+	_, in := w.Srv.Clients().Load(sp.Sid)
+	obs["disturbed"] = !(so2 != nil && so2.ReadyState() == "open" && in)
+	obs["upgrading"] = so2 != nil && so2.Upgrading()
+	rec.Log("rt.cell", "scn", scn, "cell", cell, "obs", obs)
+	w.quietEnd()
+}
+
 func jsonCodeMsg(body []byte) (int, string) {
 	var cm struct {
 		Code    *int   `json:"code"`
@@ -308,6 +364,8 @@ func rtScenarios(behs [][]map[string]any) []Scenario {
 			for _, c := range part {
 				if c["kind"] == "route" {
 					rtRouteCell(t, rec, g, name, c)
+				} else if c["kind"] == "wtadmit" {
+					rtWtCell(t, rec, g, name, c)
 				} else {
 					rtAdmitCell(t, rec, g, name, c)
 				}
